@@ -312,6 +312,65 @@ def run(tier='quick', repo=None):
             ok = False
     rep.add('R-resize-guarded', 'ubuf_pic_common_resize', HOLDS if ok else VIOLATED, fn.loc, stores=len(stores),
             **({} if ok else {'what': 'a window field is stored on a path that has not compared the new window with both hmhigh and vhigh'}))
+    # ---- R-offset-normalised ---------------------------------------------------------------
+    rep.rule('R-offset-normalised', 'a function that subtracts one of its offset parameters (a signed value that, by the API, counts from the end when negative) from a '
+             'size has first, on every path, given that parameter its normalised value under a `< 0` test: otherwise "up to the end" (size -1) from a '
+             'negative offset yields more than the whole size and the function works outside the window')
+    noff = 0
+    units_ = dict(prog.units)
+    for uname, u in sorted(units_.items()):
+        for fn in sorted(u.funcs.values(), key=lambda f: f.name):
+            if not fn.blocks or not fn.inmain:
+                continue
+            offs = [p_['n'] for p_ in fn.params if re.search(r'offset$', p_['n'] or '') and p_['t'] in ('int', 'int64_t', 'ssize_t', 'long')]
+            if not offs:
+                continue
+            ev = pr.Events(fn)
+            for o in offs:
+                def is_o(n, o=o):
+                    n = strip_all_casts(fn.resolve(n)) if isinstance(n, dict) else n
+                    return isinstance(n, dict) and n.get('k') == 'ref' and n.get('d') == 'param' and n.get('n') == o
+
+                def sub(n, o=o):
+                    if n.get('k') == 'bin' and n.get('op') == '-' and is_o(n.get('rhs')):
+                        return True
+                    return is_assign(n) and n.get('op') == '-=' and is_o(n.get('rhs'))
+
+                def norm(n, o=o):
+                    return is_assign(n) and is_o(n.get('lhs')) and n.get('op') in ('=', '+=')
+                subs = ev.find(sub)
+                if not subs:
+                    continue
+                noff += 1
+                # follow only the arms a negative value takes (tests `o < 0`, `o >= 0`, wrapped in unlikely())
+                succ = dict(fn.succ)
+                for b_ in fn.blocks:
+                    c_ = fn.cond(b_)
+                    if not c_:
+                        continue
+                    t_ = strip_all_casts(c_[0])
+                    while isinstance(t_, dict) and t_.get('k') == 'call' and t_.get('fn') == '__builtin_expect' and t_.get('args'):
+                        t_ = strip_all_casts(fn.resolve(t_['args'][0]))
+                        while isinstance(t_, dict) and t_.get('k') == 'un' and t_.get('op') == '!' and isinstance(strip_all_casts(fn.resolve(t_['e'])), dict) and \
+                                strip_all_casts(fn.resolve(t_['e'])).get('k') == 'un' and strip_all_casts(fn.resolve(t_['e'])).get('op') == '!':
+                            t_ = strip_all_casts(fn.resolve(strip_all_casts(fn.resolve(t_['e']))['e']))
+                    if isinstance(t_, dict) and t_.get('k') == 'bin' and t_.get('op') in ('<', '>=') and is_o(t_.get('lhs')) and const_of(strip_all_casts(fn.resolve(t_['rhs']))) == 0:
+                        succ[b_] = [c_[1] if t_['op'] == '<' else c_[2]]
+
+                class _V:
+                    def __init__(self, f, sc):
+                        self._f, self.succ = f, sc
+
+                    def __getattr__(self, a):
+                        return getattr(self._f, a)
+                ev.fn = _V(fn, succ)
+                bad = pr.must_precede(ev, norm, sub)
+                ev.fn = fn
+                rep.add('R-offset-normalised', '%s:%s' % (fn.name, o), VIOLATED if bad else HOLDS, fn.loc if not bad else '%s:%s' % (fn.file, bad[0][2].get('l')),
+                        **({'what': '%s subtracts its parameter %s from a size (line %s) on a path where a negative value (counted from the end) has not been '
+                                    'normalised: with size -1 the result exceeds the whole size' % (fn.name, o, bad[0][2].get('l'))} if bad else {}))
+    if noff < 4:
+        raise facts.AnalysisBroken('R-offset-normalised found only %d offset parameters used in subtractions' % noff)
     rep.assumptions = ['negative offsets are normalised by adding the size before the range checks (as the code does); sizes fit in int']
     from rules import c19model
     gprog = facts.load_program([c19model.PIC_COMMON, c19model.PIC_MEM, c19model.SND_COMMON], repo=repo)
